@@ -131,10 +131,14 @@ def run_check_inner(comp: Component, case) -> Result:
     check (the code failed on an input in the generated domain); an exception confined to the
     harness is a harness error and propagates (exit 2).
     """
+    from vverif.oracles.geom import OracleInconclusive
+
     try:
         r = comp.check(case)
     except HarnessError:
         raise
+    except OracleInconclusive as e:
+        return Result.indet(["oracle-inconclusive:" + str(e)[:40]])
     except Exception as e:  # noqa: BLE001
         where = vopy_frame_sig(e)
         if where is None:
